@@ -23,6 +23,9 @@ class World:
         self.base = dict(base_ext or {})
         self.base.setdefault("__strict__", True)
         self.region = region if region is not None else {}
+        self.base["__region__"] = self.region
+        if isinstance(base_ext, dict):
+            base_ext["__region__"] = self.region  # the array model's own closures read the region from their dict
         self.module_env = dict(module_env or {})
         self.classes = {}
         self.funcs = {}
@@ -94,6 +97,7 @@ class World:
         if self.ext is not None:
             return self.ext
         ext = dict(self.base)
+        ext["__region__"] = self.region
         for name, cls in self.classes.items():
             ext[name] = (lambda a, k, cls=cls: self.new(cls, a, k))
         for name, f in self.funcs.items():
@@ -194,6 +198,8 @@ class World:
         f = self.foreign_method(cls, mname)
         if f is not None:
             return f(inst, list(args), kwargs or {})
+        if mname == "__init__" and all((b or "").split(".")[-1] not in self.classes for b in cls.base_names()):
+            return None  # object.__init__ (or an unmodelled base that only stores its own state)
         raise Undecided(f"super().{mname}: no registered base class defines it")
 
     def call_instance(self, v, args, kwargs):
